@@ -29,6 +29,7 @@ CONSTANTS
  NV = {nv}
  PrevOf <- MPrevOf
  FsmPrev <- MFsmPrev
+ RegOf <- MRegOf
  NFsm = {nfsm}
  Conds <- {conds}
  Tests <- {tests}
@@ -62,6 +63,12 @@ def instances(th):
     fsm2 = dict(nfsm=2, nv=432, conds="NoConds", tests="NoTests", rhs="RhsOne", targets="TargetsOne",
                 states="TwoStates", inits="NoInitArg", maxlen=10 if th else 9, maxdepth=2, maxassign=3, mutant="")
     return ctrl, lhs, fsm, mixed, fsm2
+
+
+def regoff_instance(th):
+    # targets whose run-time offset / index is a register assigned earlier in the same synchronous domain
+    return dict(nfsm=1, nv=48, conds="CondsOne", tests="NoTests", rhs="RhsLhs", targets="TargetsReg",
+                states="NoStates", inits="NoInits", maxlen=5 if th else 4, maxdepth=1, maxassign=3, mutant="")
 
 
 def collect(ctx, name, res, nstates=None):
@@ -145,6 +152,7 @@ def run(ctx):
     run_dump_stage(ctx, "ctrl", ctrl)
     run_dump_stage(ctx, "lhs", lhs)
     run_dump_stage(ctx, "fsm", fsm)
+    run_dump_stage(ctx, "regoff", regoff_instance(th))
     run_sim_stage(ctx, "mixed", mixed, 20000 if th else 2500)
     mut = dict(ctrl, maxlen=4, mutant="last_match", nv=16)
     ctx.tlc("MC_AmStmt", stage="mc/mutant-lastmatch", cfg_text=CFG.format(**mut), workers=4, expect_violation="AtMostOneSelected")
